@@ -73,6 +73,8 @@ CORPUS = [
     # internal alignment, a dovetail, a gap and a fragment
     ('gfa2', ['S\ta\t10\t*', 'S\tb\t4\t*', 'E\tc1\tb+\ta+\t0\t4$\t3\t7\t*', 'E\tc2\ta-\tb+\t2\t6\t0\t4$\t4M',
               'E\ti1\ta+\tb-\t2\t5\t1\t3\t*', 'G\tg1\ta+\tb-\t3\t*']),
+    # two paths over one hairpin step whose overlap is not its own complement (F71)
+    ('gfa1', ['S\tx\t*', 'L\tx\t+\tx\t-\t1I1D5I', 'P\tp1\tx+,x-\t*', 'P\tp0\tx+,x-\t5D1I1D']),
     # gaps listed by a set and by an ordered group
     ('gfa2', ['S\ta\t10\t*', 'S\tb\t10\t*', 'G\tg1\ta+\tb-\t5\t*', 'U\tu1\ta g1', 'O\to1\ta+ g1+ b-']),
     ('gfa2', ['S\ta\t10\t*', 'S\tb\t10\t*', 'E\tw\ta+\tb-\t0\t10$\t0\t10$\t*', 'E\td\tb+\ta+\t8\t10$\t0\t2\t2M',
